@@ -101,14 +101,21 @@ def judge_program(case, judge, caps=None):
                         if ref["status"] == "end" and info["kind"] in ("ref-stopped-early", "one-side-loops-forever", "halt-kind"):
                             problems.append(dict(signature=dict(monitor="termination", event="chip-keeps-running-after-source-ended", vm_status=vm["status"], **oc), detail=dict(info=info)))
                     else:
-                        problems.append(dict(signature=dict(monitor="trace", event=info["kind"], machine_event=(ev or {}).get("event"), **oc), detail=dict(info=info, event=ev)))
+                        sig = dict(monitor="trace", event=info["kind"], machine_event=(ev or {}).get("event"), **oc)
+                        nan_at = (ref.get("stat") or {}).get("nan_test_at")
+                        dyn = []
+                        if nan_at is not None and nan_at <= info.get("index", 1 << 30):
+                            # before the traces part, the source evaluated an if / while test on a NaN operand
+                            sig["nan_in_test"] = True
+                            dyn = ["test_compares_nan_at_run_time"]
+                        problems.append(dict(signature=sig, dyn_triggers=dyn, detail=dict(info=info, event=ev)))
                 if vm["status"] == "divergence":
                     cnt["diverged"] += 1
             if problems:
                 if trig is None:
                     trig = triggers_of(src)
                 for p in problems:
-                    p["triggers"] = trig
+                    p["triggers"] = sorted(set(trig) | set(p.pop("dyn_triggers", [])))
                     p["detail"] = dict(p["detail"], options=c.key, env=es, code=c.code[:2500])
                     vio.append(p)
                 break  # one witness per vector is enough
